@@ -4,6 +4,7 @@ import (
 	"bytes"
 	"context"
 	"fmt"
+	"sort"
 	"strings"
 	"time"
 
@@ -19,12 +20,18 @@ func init() {
 		Rule: "kind A (primitives through hook H4, one message length per step): for every length 0..130 (quick) / 0..1100 (thorough) and 2-8 passphrases a seeded message is encrypted twice (must be equal), decrypted (must round-trip), decrypted under another passphrase (must fail), truncated at every length and extended (must fail), and for ciphertexts <= 96 bytes EVERY single bit is flipped (2000 random flips above; each must fail, never return data); a legacy-format box (nonce || hand-rolled secretbox) of the same message must open to the plaintext. " +
 			"kind B (end to end): kv.Open with V1NodeEncryptor on the instrumented store; keys and values carry 16-byte high-entropy markers; after commit no node/ object may contain a marker; a reader with the right passphrase gets the values back, one with a wrong passphrase or reading a bucket with one flipped bit in a node object gets an error; committing unchanged data again adds no object and never rewrites a name with different bytes (store assertion). " +
 			"non-trivial = every case (each covers a distinct length range / marker set); distinct = hash of (kind, lengths, passphrase)",
-		Flavours: []string{"plain"},
+		Flavours: []string{"plain", "race"},
+		FlavourOf: func(tier string, idx int) string {
+			if c18IsE2E(tier, idx) && idx%2 == 0 {
+				return "race" // node encryption runs on up to 40 goroutines during a flush
+			}
+			return "plain"
+		},
 		Cases: func(tier string) int {
 			if tier == "thorough" {
 				return 300
 			}
-			return 34
+			return 36
 		},
 		MinNT: func(tier string) int {
 			if tier == "thorough" {
@@ -50,8 +57,12 @@ func c18Key(pass string) *[32]byte {
 	return &k
 }
 
+func c18IsE2E(tier string, idx int) bool {
+	return idx%9 == 8 || (tier == "thorough" && idx%10 == 9)
+}
+
 func runC18(c *Case) {
-	if c.Index%17 == 16 || (c.Tier == "thorough" && c.Index%10 == 9) {
+	if c18IsE2E(c.Tier, c.Index) {
 		c18EndToEnd(c)
 		return
 	}
@@ -220,13 +231,22 @@ func c18EndToEnd(c *Case) {
 	}
 	var markers [][]byte
 	want := map[string]string{}
+	idxOf := map[string]int{}
 	n := r.Range(5, 60)
+	if c.Index%2 == 0 {
+		// bulk: a flush of many nodes encrypts them concurrently
+		n = r.Range(600, 1500)
+		if bf == 4096 {
+			bf = 4
+		}
+	}
 	for i := 0; i < n; i++ {
 		mk, mv := r.Bytes(16), r.Bytes(16)
 		k := fmt.Sprintf("k%03d-%x", i, mk)
 		v := fmt.Sprintf("v-%x", mv)
 		markers = append(markers, []byte(fmt.Sprintf("%x", mk)), []byte(fmt.Sprintf("%x", mv)))
 		want[k] = v
+		idxOf[k] = i
 		if err := db.Set(ctx, time.Unix(2000+int64(i), 0), k, v); err != nil {
 			c.Violate("C18:e2e:set", err.Error(), nil)
 			return
@@ -278,6 +298,55 @@ func c18EndToEnd(c *Case) {
 			}
 		}
 		dropStore(st2)
+	}
+	// equal plaintext gives equal ciphertext also when nodes are encrypted concurrently:
+	// the same data committed into a second bucket must produce the same node objects
+	{
+		st4 := newStore()
+		cfg := cfgFor(pass)
+		cfg.Storage = &kv.S3BucketInfo{EndpointURL: fs3.Endpoint(st4.Name, "again"), BucketName: "b", Prefix: "enc"}
+		d4, err := kv.Open(ctx, st4.Client("again").View(false), cfg, kv.OpenOptions{}, time.Unix(1000, 0))
+		if err == nil {
+			i := 0
+			keys := make([]string, 0, len(want))
+			for k := range want {
+				keys = append(keys, k)
+			}
+			sort.Strings(keys)
+			for _, k := range keys {
+				d4.Set(ctx, time.Unix(2000+int64(idxOf[k]), 0), k, want[k])
+				i++
+			}
+			if _, err := d4.Commit(ctx); err == nil {
+				a, b := map[string]string{}, map[string]string{}
+				for k, v := range snap {
+					if strings.Contains(k, "/node/") {
+						a[k] = fs3.ShaHex(v)
+					}
+				}
+				for k, v := range st4.Snapshot() {
+					if strings.Contains(k, "/node/") {
+						b[k] = fs3.ShaHex(v)
+					}
+				}
+				c.Count("independent_recommits_compared", 1)
+				if len(a) != len(b) {
+					c.Violate("C18:e2e:not-deterministic", fmt.Sprintf("the same entries committed into two buckets give %d and %d node objects", len(a), len(b)), nil)
+					dropStore(st4)
+					return
+				}
+				for k, h := range a {
+					if b[k] != h {
+						pa, ea := kv.VerifDecrypt(c18Key(string(pass)), snap[k])
+						pb, eb := kv.VerifDecrypt(c18Key(string(pass)), st4.Snapshot()[k])
+						c.Violate("C18:e2e:not-deterministic", fmt.Sprintf("node %s has different ciphertext in two buckets holding the same entries (plaintexts equal: %v, %v %v, lens %d %d)", k, bytes.Equal(pa, pb), ea, eb, len(pa), len(pb)), nil)
+						dropStore(st4)
+						return
+					}
+				}
+			}
+		}
+		dropStore(st4)
 	}
 	// reader with the right passphrase
 	rd, err := kv.Open(ctx, st.Client("reader").View(true), cfgFor(pass), kv.OpenOptions{ReadOnly: true}, time.Unix(3000, 0))
@@ -383,7 +452,7 @@ func c18EndToEnd(c *Case) {
 			return
 		}
 	}
-	if bf == 4096 && nodesAfter > nodes+1 {
+	if bf == 4096 && n < 100 && nodesAfter > nodes+1 {
 		c.Violate("C18:e2e:nodes-stored-twice", fmt.Sprintf("%d node objects before, %d after committing one change", nodes, nodesAfter), nil)
 		return
 	}
